@@ -699,7 +699,7 @@ pub fn run(cfg: &Cfg) -> Report {
     }
     let s = parallel(cfg, 1, |t| {
         let mut gb = GuardBuf::new(8);
-        let n = t.cfg.scale(2, 60, 1500);
+        let n = t.cfg.scale(2, 500, 10_000);
         let mut pool: Vec<(Shape, Val, Vec<u8>)> = Vec::new();
         for i in 0..n {
             if t.cfg.expired() {
